@@ -23,9 +23,16 @@ import (
 
 // genEngineScenario is the C01 input space (shared by C02–C07, C30, C32).
 func genEngineScenario(runSeed uint64, tier string, nReq int) *gen.Scenario {
+	return genEngineScenarioWith(runSeed, tier, nReq, nil)
+}
+
+func genEngineScenarioWith(runSeed uint64, tier string, nReq int, tweak func(o *gen.ModelOpts)) *gen.Scenario {
 	g := gen.New(runSeed)
 	sc := &gen.Scenario{Version: 1, Harness: "hengine", Knobs: map[string]int64{}}
 	opts := gen.ModelOpts{Conditions: g.Chance(0.45), Exclusion: g.Chance(0.6), MaxTypes: 1 + g.Intn(3), NoWildcard: g.Chance(0.3), SecondUserType: true}
+	if tweak != nil {
+		tweak(&opts)
+	}
 	for try := 0; try < 50; try++ {
 		m := g.Model(opts)
 		if gen.Stratified(m) {
@@ -262,6 +269,7 @@ func Props() []*harness.Prop {
 		{ID: "C07", Gen: c07Gen, Exec: c07Exec},
 		{ID: "C08", Gen: c08Gen, Exec: c08Exec},
 		{ID: "C09", Gen: c09Gen, Exec: c09Exec},
+		{ID: "C21", Gen: c21Gen, Exec: c21Exec},
 		{ID: "C10", Gen: c10Gen, Exec: c10Exec},
 		{ID: "C30", Gen: c30Gen, Exec: c30Exec},
 		{ID: "C32", Gen: c32Gen, Exec: c32Exec},
